@@ -408,7 +408,10 @@ def violation_records(shape, fails):
     for sub, detail in fails:
         s = shrink_shape(shape, sub)
         r, _, _ = check_body(s)
-        d = [f for f in r if f[0] == sub][0][1]
+        dd = [f for f in (r if r != "excluded" else []) if f[0] == sub]
+        if not dd:
+            s, dd = shape, [(sub, detail)]
+        d = dd[0][1]
         out.append({"sub": sub, "sig": "C02/%s:%s" % (sub, c01.shape_str(s)),
                     "witness": {"shape": s, "found_as": c01.shape_str(shape)},
                     "detail": "body: %s\n%s" % (c01.shape_str(s), d)})
